@@ -603,8 +603,10 @@ class t2listing(object):
         if pt >= 2:
             nextpt = line.find('.', pt + 1)
             if nextpt < 0 : nextpt = len(line)
-            s = line[pt + 1: nextpt - 1].lower()
-            exponential = s.find('e') >= 0 or s.find('+') >= 0 or s.find('-') >= 0
+            from re import match
+            s = line[pt + 1: nextpt - 1]
+            # (a sign belonging to the next value does not make this one exponential:)
+            exponential = match('[0-9]*([eEdD]|[-+][0-9]{3})', s) is not None
             if exponential:
                 c = line[pt - 2]
                 if c in ['-',' ']: start = pt - 2
